@@ -316,3 +316,63 @@ func TestVerifC06(t *testing.T) {
 		r.Set("map_range_sites_executed", len(sites))
 	}
 }
+
+// TestVerifC06History: nothing observable depends on earlier calls in the same
+// process: every operation after every operation history of length <= 2 (3 in
+// thorough) gives the result it gives in a fresh process state. Shares the
+// operation alphabet of C14.
+func TestVerifC06History(t *testing.T) {
+	r := h.Start("C06")
+	defer r.Finish(func(s string) { t.Error(s) })
+	if r.ReplayFile() != nil {
+		return
+	}
+	inputs := c14Inputs()
+	ops := c14Ops()
+	depth := r.Pick(3, 4)
+	// reference results: each operation as the first thing done to a freshly parsed snapshot
+	ref := make([][]string, len(inputs))
+	for i := range inputs {
+		for _, op := range ops {
+			s := scanOnce(bytes.NewReader(inputs[i].text), &Opts{NameArguments: true}).snap
+			ref[i] = append(ref[i], op.run(s, &inputs[i], &Opts{NameArguments: true}))
+		}
+	}
+	seq := 0
+	for ii := range inputs {
+		var rec func(hist []int)
+		rec = func(hist []int) {
+			if len(hist) > 0 {
+				seq++
+				if r.MineIdx(seq) && !r.Expired() {
+					key := fmt.Sprintf("history %s %v", inputs[ii].name, hist)
+					v := r.Check(func() *h.Viol {
+						opts := &Opts{NameArguments: true}
+						s := scanOnce(bytes.NewReader(inputs[ii].text), opts).snap
+						var names []string
+						for _, o := range hist {
+							names = append(names, ops[o].name)
+							got := ops[o].run(s, &inputs[ii], opts)
+							if got != ref[ii][o] {
+								return &h.Viol{Fingerprint: "C06/depends-on-earlier-calls:" + ops[o].name, Summary: fmt.Sprintf("input %s: after %s the result of %s differs from its result in a fresh state", inputs[ii].name, strings.Join(names[:len(names)-1], " ; "), ops[o].name), Key: key, Kind: "history", Expected: trunc(ref[ii][o]), Observed: trunc(got)}
+							}
+						}
+						return nil
+					})
+					out := "ok"
+					if v != nil {
+						out = v.Fingerprint
+					}
+					r.Record(key, len(hist) > 1, out)
+				}
+			}
+			if len(hist) == depth {
+				return
+			}
+			for o := range ops {
+				rec(append(append([]int{}, hist...), o))
+			}
+		}
+		rec(nil)
+	}
+}
